@@ -295,8 +295,9 @@ def gen_spec(rng, size=None):
         flat = [(si, i) for si, seg in enumerate(segments) for i in range(len(seg["rain"])) if seg["rain"][i] == 0.0]
         for si, i in rng.sample(flat, min(len(flat), rng.randint(1, 4))):
             segments[si]["rain"][i] = rng.choice([-9999.0, -0.1, -1.0])
-    if rng.random() < 0.1:
-        spec["unpadded_stamps"] = True
+    if rng.random() < 0.12:
+        # only the hour (rows from 10:00 on still look padded), or month, day and hour
+        spec["unpadded_stamps"] = rng.choice(["hour", "hour", "all"])
     # rows need not be in time order (two logger downloads concatenated newest first, back-filled
     # rows appended at the end, ...): load accepts any row order
     if rng.random() < 0.25:
@@ -365,6 +366,8 @@ def render(spec):
                 d, t = stamp.split(" ")
                 y, m, dd = d.split("-")
                 hh, mm, ss = t.split(":")
+                if spec["unpadded_stamps"] == "hour":
+                    return "%s-%s-%s %d:%s:%s,%s" % (y, m, dd, int(hh), mm, ss, rest)
                 return "%s-%d-%d %d:%s:%s,%s" % (y, int(m), int(dd), int(hh), mm, ss, rest)
             except ValueError:
                 return line
